@@ -127,7 +127,8 @@ def latmio_dir_connected(R, itr, D=None, seed=None):
                         break
             att += 1
 
-    Rlatt = R[np.ix_(ind_rp[::-1], ind_rp[::-1])]  # reverse random permutation
+    ind_rp_reverse = np.argsort(ind_rp)  # reverse random permutation
+    Rlatt = R[np.ix_(ind_rp_reverse, ind_rp_reverse)]
 
     return Rlatt, R, ind_rp, eff
 
@@ -224,7 +225,8 @@ def latmio_dir(R, itr, D=None, seed=None):
                     break
             att += 1
 
-    Rlatt = R[np.ix_(ind_rp[::-1], ind_rp[::-1])]  # reverse random permutation
+    ind_rp_reverse = np.argsort(ind_rp)  # reverse random permutation
+    Rlatt = R[np.ix_(ind_rp_reverse, ind_rp_reverse)]
 
     return Rlatt, R, ind_rp, eff
 
@@ -363,7 +365,8 @@ def latmio_und_connected(R, itr, D=None, seed=None):
                         break
             att += 1
 
-    Rlatt = R[np.ix_(ind_rp[::-1], ind_rp[::-1])]
+    ind_rp_reverse = np.argsort(ind_rp)  # reverse random permutation
+    Rlatt = R[np.ix_(ind_rp_reverse, ind_rp_reverse)]
     return Rlatt, R, ind_rp, eff
 
 
@@ -470,7 +473,8 @@ def latmio_und(R, itr, D=None, seed=None):
                     break
             att += 1
 
-    Rlatt = R[np.ix_(ind_rp[::-1], ind_rp[::-1])]
+    ind_rp_reverse = np.argsort(ind_rp)  # reverse random permutation
+    Rlatt = R[np.ix_(ind_rp_reverse, ind_rp_reverse)]
     return Rlatt, R, ind_rp, eff
 
 
